@@ -55,5 +55,8 @@ def pairs():
                   replace=["mi_segment_abandon/c_segment_abandon_rec"], functions=["_mi_segment_page_abandon"], timeout=300),
       "page_clear": dict(name="page_clear", entry="h_page_clear", harness="harness/seg_pagefree.c", enforce="mi_segment_page_clear", config="SCALED", label="P", unwind=14, cbmc_flags=NOPTR,
                   replace=["mi_segment_span_free_coalesce/c_coalesce_rec", "mi_option_is_enabled", "_mi_os_reset"], functions=["mi_segment_page_clear"], timeout=300),
+      "segment_free": dict(name="segment_free", entry="h_segment_free", harness="harness/seg_pagefree.c", enforce="mi_segment_free", config="SCALED", label="P", unwind=66, cbmc_flags=NOPTR,
+                  loops="loops/segment_free.json", need_ids=["loop_invariant_step"],
+                  replace=["mi_segment_os_free/c_segment_os_free_rec", "mi_segment_span_remove_from_queue/c_span_remove_rec2"], functions=["mi_segment_free"], timeout=600),
       "seg_ensure_committed": P("seg_ensure_committed", "h_ensure_committed", "mi_segment_ensure_committed", ["mi_segment_commit/c_seg_commit_rec"]),
     }
